@@ -104,7 +104,7 @@ for _pid, _num, _labs, _sig in [
 _SHARED_SIGS = {"1.2": "composed run on a shared wire: a router of another flow appears among the hops", "2.3": "composed run on a shared wire: the run did not report the ideal path of its own flow (a reply that was delivered is missing or misplaced)",
                 "5.2": "composed run: a hop's RTT is not send -> FIRST reply of that probe (e.g. overwritten by a later duplicate)", "11.5": "two concurrent runs used the same flow identifier"}
 PAR_RULE = ("Parameter / policy lab: (8) the real RunTraceroute over the simulated wire behind packets.NewSourceSink with TTL bounds from {-1,0,1,2,255,256,257} x {-1,0,1,5,254..258,300,511,65541}, ports {0,1,80,65535,65536,65616,-1,131070}, "
-            "udp/tcp/icmp/unknown protocol, syn/default/unknown method, IPv4 and IPv6 loopback targets: error vs the TTLs, address, port and protocol actually on the wire; (9) the HTTP handler's query parsing on numeric/non-numeric/absent values; "
+            "udp/tcp/icmp/unknown protocol, syn/default/unknown method, IPv4 and IPv6 loopback targets: error vs the TTLs, address, port and protocol actually on the wire; every fourth request also through the real command line (cobra flags --proto --max-ttl --port --tcp-method --ipv6, incl. --max-ttl -30/-1/0/256/300) with the same observables; (9) the HTTP handler's query parsing on numeric/non-numeric/absent values; "
             "(10) target literal forms (IPv4, IPv6, bracketed, with and without port) x default ports around 0/1/65535/65536; (11) performTCPFallback with random error trees (wrap depth <= 4, NotSupportedError at any depth, errors.Join); "
             "(12) the real runTracerouteOnce for syn/sack/prefer_sack against a loopback listener the harness owns (accept count = connections opened) with handshake segments synthesised on the simulated wire: SACK-permitted with/without timestamps, no SACK-permitted, ACKs without SACK blocks, port closed, handshake never captured, and injected filter/send/read failures.")
 PAR_TRUSTED = ["real sockets are used only for LocalAddrForHost / reserveLocalPort / the loopback dial; every packet is written to the simulated sink", "net.SplitHostPort, netip.ParseAddr, strconv.Atoi, errors.Is/As/Join are modelled only"]
